@@ -20,15 +20,15 @@ DOC = SCHEMA(children=[MK("k"), K("j")])
 STEPS = [
     "%define a v1", "%define A v1", "%define a v2", "%define a", "%define b $a", "%define B $$a",
     "%define b ${a}x", "%define c p  q", "%define 1a v1", "%define a-b v1", "%define b $c",
-    "k $a", "k $B", "k ${c}", "k $$a", "k $a$b",
+    "k $a", "k $B", "k ${c}", "k ${A}", "k $$a", "k $a$b",
     "%include f1.conf", "%include sub/f2.conf",
 ]
-STEPS_SMALL = ["%define a v1", "%define A v2", "%define b $a", "%define B $$a", "%define b $a", "k $a", "k $b",
+STEPS_SMALL = ["%define a v1", "%define A v2", "%define b $a", "%define B $$a", "%define b ${A}", "k $a", "k ${B}",
                "%include f1.conf", "%include sub/f2.conf", "%define a"]
 FILES = {
     "d/f1.conf": ["%define a v1", "k $b"],
     "d/sub/f2.conf": ["%define b $a", "%include ../f3.conf", "k ${c}"],
-    "d/f3.conf": ["k $a$b", "%define C $b"],
+    "d/f3.conf": ["k $a${B}", "%define C $b"],
 }
 
 
